@@ -176,10 +176,10 @@ func GenRequests(g *tape.Stream, fg *tape.Stream, s *Setup, p *Profile) [][]*Req
 				if fg.Chance(p.WFaultPm) {
 					q.WPlan = append(q.WPlan, WFault{At: fg.Intn(3), Kind: 1 + fg.Intn(2), Keep: fg.Intn(6)})
 				}
-				if fg.Chance(p.CancelPm) {
+				if !AutoMode && fg.Chance(p.CancelPm) {
 					q.PlannedCancel = fg.Intn(40)
 				}
-				if fg.Chance(p.DeadlinePm) {
+				if !AutoMode && fg.Chance(p.DeadlinePm) {
 					q.Deadline = int64(1 + fg.Intn(120))
 				}
 				fg.End()
